@@ -40,9 +40,15 @@ RULE = (
     "twice in a run; every cache hit that the scheduler replays (_get_cache) contains only handle "
     "states that is_valid_handle accepts at that moment; after each run, validity of every state "
     "seen in advance_handle equals a lineage model fed with the observed advance/rollback calls. "
+    "(c) Join histories: two or three tasks each advance the same root handle (distinct states of "
+    "ONE handle name), a join task receives all of them (positionally, in a list, or by keyword) and "
+    "returns one; optionally one more task follows; task versions are edited/reverted over 3-6 runs; "
+    "same execution rules as (b): an edited or reverted call executes (a revert is never "
+    "fast-forwarded: the edited run must have rolled back EVERY handle argument), everything "
+    "downstream of an executed call executes, nothing else does. "
     "Non-trivial = (a) a rollback with a fork (two children) or a merge among the affected states, or "
     "re-derivation of an invalidated state; (b) a history with an edit followed by a revert, or an "
-    "edit in a branched/merged DAG."
+    "edit in a branched/merged DAG; (c) the join task reverted to an earlier version."
 )
 ASSUMPTIONS = [
     "handle-writing tasks are deterministic (same task source + same arguments -> same returned handle)",
@@ -637,6 +643,162 @@ def workflow_oracle(ctx: Ctx, case) -> list:
     return labels
 
 
+# ====================================================================== (c) two states of one handle into one task
+@st.composite
+def join_cases(draw):
+    """root -> w0 -> a, root -> w1 -> b (two distinct states of ONE handle name), join(a, b[, c])
+    returns one of its handle arguments, optionally followed by w2; task versions edited/reverted
+    between runs."""
+    nin = draw(st.sampled_from([2, 2, 3]))
+    pick = draw(st.integers(0, nin - 1))
+    how = draw(st.sampled_from(["pos", "pos", "list", "kw"]))        # how the handles are passed
+    post = draw(st.booleans())
+    nruns = draw(st.integers(3, 6))
+    runs = [[0, 0, 0, 0]]
+    for _ in range(nruns - 1):
+        prev = runs[-1]
+        c = draw(st.sampled_from(["same", "edit-join", "edit-join", "edit", "revert", "revert"]))
+        cur = list(prev)
+        if c == "edit-join":
+            cur[2] = (prev[2] + 1 + draw(st.integers(0, 1))) % 3
+        elif c == "edit":
+            k = draw(st.integers(0, 3))
+            cur[k] = (prev[k] + 1) % 3
+        elif c == "revert" and len(runs) >= 2:
+            cur = list(runs[-2])
+        runs.append(cur)
+    return {"kind": "join", "nin": nin, "pick": pick, "how": how, "post": post, "runs": runs}
+
+
+def join_oracle(ctx: Ctx, case) -> list:
+    from redun import Task
+    from redun.handle import Handle as BaseHandle
+    from redun.task import get_task_registry
+    from redun.utils import iter_nested_value
+
+    nin, pick, how = case["nin"], case["pick"], case["how"]
+    # node ids: 0..nin-1 producers (tasks w0, w1, w0), nin = join (task 2), nin+1 = post (task 3)
+    task_of = [0, 1, 0][:nin] + [2] + ([3] if case["post"] else [])
+    total = len(task_of)
+    down = {i: ({nin} | ({nin + 1} if case["post"] else set())) for i in range(nin)}
+    down[nin] = {nin + 1} if case["post"] else set()
+    if case["post"]:
+        down[nin + 1] = set()
+    labels = []
+    b = dbx.fresh_backend()
+    try:
+        sched = C.new_scheduler(backend=b)
+        sched.load()
+        replayed_invalid = []
+        orig_get_cache = sched._get_cache
+
+        def get_cache(job):
+            result, was_cached, call_hash = orig_get_cache(job)
+            if was_cached:
+                for v in iter_nested_value(result):
+                    if isinstance(v, BaseHandle) and not b.is_valid_handle(v):
+                        replayed_invalid.append((job.task.fullname, v.__handle__.hash[:8]))
+            return result, was_cached, call_hash
+
+        sched._get_cache = get_cache
+        reg = get_task_registry()
+        for r, versions in enumerate(case["runs"]):
+            rec: list = []
+
+            def mk1(k):
+                def w(conn, i):
+                    rec.append(i)
+                    return conn
+                return Task(w, name=f"jw{k}", namespace=NS, source=f"def jw{k}(conn, i):\n    # version {versions[k]}\n    return conn\n")
+
+            w0, w1, w3 = mk1(0), mk1(1), mk1(3)
+
+            def jf(i, *conns, hs=None, **kw):
+                rec.append(i)
+                allh = list(conns) + list(hs or []) + [kw[k] for k in sorted(kw)]
+                return allh[pick]
+
+            tj = Task(jf, name="jjoin", namespace=NS, source=f"def jjoin(i, *conns, hs=None, **kw):\n    # version {versions[2]} pick {pick}\n")
+            for t in (w0, w1, w3, tj):
+                reg.add(t)
+
+            def main():
+                root = H("jconn", 1, namespace=NS)
+                outs = [[w0, w1, w0][k](root, k) for k in range(nin)]
+                if how == "pos":
+                    cur = tj(nin, *outs)
+                elif how == "list":
+                    cur = tj(nin, hs=outs)
+                else:
+                    cur = tj(nin, **{f"c{k}": o for k, o in enumerate(outs)})
+                if case["post"]:
+                    cur = w3(cur, nin + 1)
+                return cur
+
+            tm = Task(main, name="jmain", namespace=NS, source="jmain " + canon([nin, pick, how, case["post"]]))
+            reg.add(tm)
+            ctl = C.Ctl()
+            ctl.attach(sched)
+            with ctx.no_raise("scheduler run", case):
+                result = sched.run(tm())
+            eset = set(rec)
+            where = f"run {r} versions={versions} executed={sorted(rec)}"
+            if len(rec) != len(eset):
+                raise Violation("join:executed-twice", f"{where}: a call ran more than once in one run", case)
+            if replayed_invalid:
+                raise Violation("join:replayed-invalid-handle", f"{where}: cache hit replayed with invalid handle state(s) {replayed_invalid[:3]}", case)
+            if r == 0:
+                if eset != set(range(total)):
+                    raise Violation("join:first-run-incomplete", f"{where}: expected every call once", case)
+            else:
+                prev = case["runs"][r - 1]
+                edited = {i for i in range(total) if versions[task_of[i]] != prev[task_of[i]]}
+                must = set(edited)
+                for e in sorted(eset | edited):
+                    todo = [e]
+                    while todo:
+                        x = todo.pop()
+                        for c in down[x]:
+                            if c not in must:
+                                must.add(c)
+                                todo.append(c)
+                for d in sorted(must - eset):
+                    key = "join:edited-not-executed" if d in edited else "join:downstream-not-reexecuted"
+                    raise Violation(key, f"{where}: call {d} ({'join' if d == nin else 'producer' if d < nin else 'post'}) was replayed "
+                                    f"from cache although " + ("its task was edited/reverted since the previous run (a revert must "
+                                    "never be fast-forwarded: the edited run rolled its handle arguments back)" if d in edited
+                                    else "a call upstream of its handle ran"), case)
+                spurious = eset - must
+                if how == "list":
+                    # several handles inside ONE list argument: the pickle-based hash of the list
+                    # depends on which sub-objects the handle states share (they share them when
+                    # freshly derived, not when read back from the cache), so the call may miss the
+                    # cache on a re-run. Re-executing is allowed by the property; only skipping is judged.
+                    spurious = set()
+                if spurious:
+                    raise Violation("join:spurious-execution", f"{where}: calls {sorted(spurious)} ran although neither their task nor "
+                                    f"anything upstream changed (edited={sorted(edited)})", case)
+                if not edited:
+                    labels.append("rerun-unchanged")
+                if nin in edited and r >= 2 and versions[2] == case["runs"][r - 2][2]:
+                    labels.append("join-reverted")
+            for v in iter_nested_value(result):
+                if isinstance(v, BaseHandle) and not b.is_valid_handle(v):
+                    raise Violation("join:result-invalid", f"{where}: the run returned an invalid handle state", case)
+    finally:
+        dbx.discard_backend(b)
+    return labels
+
+
+def run_join_case(ctx: Ctx, case) -> None:
+    labels = []
+    try:
+        labels = join_oracle(ctx, case)
+    finally:
+        ctx.case(case, labels=["join", f"how:{case['how']}", f"pick:{case['pick']}"] + sorted(set(labels)),
+                 nontrivial="join-reverted" in labels)
+
+
 # ====================================================================== drivers
 def run_backend_case(ctx: Ctx, case) -> None:
     w = None
@@ -675,6 +837,7 @@ def check(ctx: Ctx) -> None:
     C.quiet_logs()
     ctx.given(backend_cases, lambda c: run_backend_case(ctx, c), ctx.n(300, 14000))
     ctx.given(workflow_cases(), lambda c: run_workflow_case(ctx, c), ctx.n(80, 2000))
+    ctx.given(join_cases(), lambda c: run_join_case(ctx, c), ctx.n(40, 1200))
 
 
 def replay(ctx: Ctx, case) -> None:
@@ -683,5 +846,7 @@ def replay(ctx: Ctx, case) -> None:
         raise HarnessError("C25 case must be a dict with kind=backend|workflow")
     if case["kind"] == "backend":
         backend_oracle(ctx, case)
+    elif case["kind"] == "join":
+        join_oracle(ctx, case)
     else:
         workflow_oracle(ctx, case)
